@@ -37,9 +37,12 @@ Definition default_strategy (default_mode : vmode) (s : strategy) : strategy :=
              (option_map (default_canary default_mode) (st_canary s))
              (or_default (st_freq s) (10 * second)).
 
-(** The defaulted object: the template's name is cleared, the strategy is defaulted. *)
+(** The defaulted object: the template's name is cleared, the strategy is defaulted.  Clearing a
+    non-empty template name changes the canonical JSON of the template, hence its hash, to a value
+    the abstraction cannot name: [no_name] stands for "some other hash" in that case. *)
 Definition default_eds (default_mode : vmode) (e : eds) : eds :=
-  MkEds (e_name e) (e_ns e) (e_annots e) (e_tmpl e) (e_tmpl_hash e) false (e_selector e)
+  MkEds (e_name e) (e_ns e) (e_annots e) (e_tmpl e)
+        (if e_tmpl_name_set e then no_name else e_tmpl_hash e) false (e_selector e)
         (default_strategy default_mode (e_strategy e)) (e_status e).
 
 Definition is_some {A} (o : option A) : bool := match o with Some _ => true | None => false end.
